@@ -20,6 +20,8 @@ TYPES = {
 }
 # topic-type table for defaults / hints (enumerated): (default, hint, expected topic class or error)
 TYPE_TABLE = [
+    # a type hint decides also when the default is non-empty and of another python type
+    (2, float, "DoubleTopic"), ([1, 0], Sequence[float], "DoubleArrayTopic"), (True, int, "IntegerTopic"),
     (1.5, None, "DoubleTopic"), (3, None, "IntegerTopic"), (False, None, "BooleanTopic"), ("s", None, "StringTopic"),
     (b"raw", None, "RawTopic"), ([1.5, 2.5], None, "DoubleArrayTopic"), ([1, 2], None, "IntegerArrayTopic"),
     ((True, False), None, "BooleanArrayTopic"), (["a"], None, "StringArrayTopic"),
@@ -139,7 +141,15 @@ def path(c, job):
 
         class Owner(Base):
             a = mt.tunable(default, writeDefault=wd, subtable=sub)
+            extra = mt.tunable(default, subtable=sub)  # a tunable only the subclass has
 
+        if c.choose("base_instance_first", 2):
+            # an instance of the base class is set up (under another name) before the subclass instances
+            b0 = Base()
+            mt.setup_tunables(b0, "base0", OWNERS[owner])
+            for k0 in [k for k in ntcore.STORE.values if "/base0/" in k]:
+                del ntcore.STORE.values[k0]
+                ntcore.STORE.types.pop(k0, None)
         c.reach("redefined-tunable")
     else:
         class Owner:
@@ -147,7 +157,8 @@ def path(c, job):
             b = mt.tunable(default, subtable=sub)
 
     names = ["n1", "n2"] if owner != "robot" else ["robot", "robot2"]
-    keys = {(n, attr): expected_key(owner, n, sub, attr) for n in names for attr in ("a", "b")}
+    attrs = ("a", "b", "extra") if job.get("redefine") else ("a", "b")
+    keys = {(n, attr): expected_key(owner, n, sub, attr) for n in names for attr in attrs}
     # pre-existing topic value for instance 1 / attr a
     model = {}
     if c.choose("preexisting", 2):
@@ -177,7 +188,14 @@ def path(c, job):
         model[k1a] = default
     for (n, attr), k in keys.items():
         model.setdefault(k, default)
-    c.prove("C09.init writeDefault-rule", _same(inst[0].a, model[k1a]), info=dict(had=had, writeDefault=wdb))
+    def rd(o, attr):
+        """Attribute read; a tunable that was never bound raises: that is a failed read, not a harness crash."""
+        try:
+            return getattr(o, attr)
+        except Exception as e:
+            return f"<read failed: {type(e).__name__}>"
+
+    c.prove("C09.init writeDefault-rule", _same(rd(inst[0], "a"), model[k1a]), info=dict(had=had, writeDefault=wdb))
     # topic type + key existence
     for (n, attr), k in keys.items():
         t = ntcore.STORE.types.get(k)
@@ -195,7 +213,11 @@ def path(c, job):
         k = keys[(n, attr)]
         if op == "py-write":
             v = _value(c, typ, f"w{i}")
-            setattr(inst[which], attr, v)
+            try:
+                setattr(inst[which], attr, v)
+            except Exception as e:
+                c.prove("C09.rw python-write-accepted", False, info=dict(key=k, exc=repr(e)[:100]))
+                continue
             model[k] = v
             c.reach("py-write")
             c.prove("C09.rw nt-side-sees-python-write", _same(ntcore.STORE.values.get(k), v), info=dict(key=k))
@@ -208,7 +230,7 @@ def path(c, job):
         # after every operation every attribute of every instance reads its own latest value
         for (n2, attr2), k2 in keys.items():
             o = inst[names.index(n2)]
-            c.prove("C09.rw read-returns-latest-from-either-side", _same(getattr(o, attr2), model[k2]),
+            c.prove("C09.rw read-returns-latest-from-either-side", _same(rd(o, attr2), model[k2]),
                     info=dict(step=i, op=op, wrote=k, read=k2))
 
 
